@@ -101,10 +101,18 @@ func (p *Proxy) ServeHTTP(w http.ResponseWriter, r *http.Request) {
 
 	start := time.Now()
 	var scrapErr error
+	sw := &startedResponseWriter{ResponseWriter: w}
+	w = sw
 	defer func() {
 		if scrapErr != nil {
 			p.log.Errorf(scrapErr.Error())
-			w.WriteHeader(http.StatusBadRequest)
+			if sw.started {
+				// part of the body has been sent with status 200 already: the only way left to
+				// make the scrape fail for prometheus too is to abort the response
+				defer panic(http.ErrAbortHandler)
+			} else {
+				w.WriteHeader(http.StatusBadRequest)
+			}
 			if tar != nil {
 				tar.LastScrapeStatistics = scrape.NewStatisticsSeriesResult()
 			}
@@ -148,6 +156,24 @@ func (p *Proxy) ServeHTTP(w http.ResponseWriter, r *http.Request) {
 	if tar != nil {
 		tar.UpdateScrapeResult(rs)
 	}
+}
+
+// startedResponseWriter remembers whether the response header has been sent
+type startedResponseWriter struct {
+	http.ResponseWriter
+	started bool
+}
+
+// WriteHeader implement http.ResponseWriter
+func (w *startedResponseWriter) WriteHeader(statusCode int) {
+	w.started = true
+	w.ResponseWriter.WriteHeader(statusCode)
+}
+
+// Write implement http.ResponseWriter
+func (w *startedResponseWriter) Write(data []byte) (int, error) {
+	w.started = true
+	return w.ResponseWriter.Write(data)
 }
 
 func translateURL(u url.URL) (job string, hash string, realURL url.URL) {
